@@ -1,30 +1,31 @@
-(* GR model driver: (gr (cfg localgr localnotif) (steps ...)) -> Adj-RIB-In (prefix stale) at every (obs) *)
+(* GR model driver: (gr (cfg localgr localnotif) (steps ...)) -> Adj-RIB-In ((family prefix) stale) at every (obs) *)
 module N = Num.Make (struct
   type positive = Model.positive = XI of positive | XO of positive | XH
   type z = Model.z = Z0 | Zpos of positive | Zneg of positive
 end)
 let z s = N.z_of_string (Sx.atom s)
 let zs = N.string_of_z
+let b s = Sx.atom s = "1"
 let cap_of = function
   | [] -> None
-  | [t; n] -> Some (z t, Sx.atom n = "1")
+  | [t; n; f4; f6] -> Some { Model.cap_time = z t; cap_n = b n; cap_f4 = b f4; cap_f6 = b f6 }
   | _ -> failwith "cap"
 let show s =
   Printf.sprintf "(obs %s %s (%s))" (if s.Model.gs_est then "1" else "0") (if s.Model.gs_restarting then "1" else "0")
-    (String.concat " " (List.map (fun (p, st) -> Printf.sprintf "(%s %s)" (zs p) (if st then "1" else "0")) s.Model.gs_routes))
+    (String.concat " " (List.map (fun ((f, p), st) -> Printf.sprintf "(%s %s %s)" (zs f) (zs p) (if st then "1" else "0")) s.Model.gs_routes))
 let run line =
   match Sx.parse line with
   | [Sx.L [Sx.A "gr"; Sx.L [Sx.A "cfg"; g; n]; Sx.L (Sx.A "steps" :: steps)]] ->
-      let k = { Model.gc_local_gr = (Sx.atom g = "1"); gc_local_notif = (Sx.atom n = "1") } in
+      let k = { Model.gc_local_gr = b g; gc_local_notif = b n } in
       let st = ref Model.ginit in
       let out = ref [] in
       let ev e = st := Model.gstep k !st e in
       List.iter (fun s -> match Sx.list s with
         | [Sx.A "obs"] -> out := show !st :: !out
         | Sx.A "up" :: cap -> ev (Model.GUp (cap_of cap))
-        | [Sx.A "ann"; p] -> ev (Model.GAnn (z p))
-        | [Sx.A "wd"; p] -> ev (Model.GWd (z p))
-        | [Sx.A "eor"] -> ev Model.GEor
+        | [Sx.A "ann"; f; p] -> ev (Model.GAnn (z f, z p))
+        | [Sx.A "wd"; f; p] -> ev (Model.GWd (z f, z p))
+        | [Sx.A "eor"; f] -> ev (Model.GEor (z f))
         | [Sx.A "loss"; Sx.A "transport"] -> ev (Model.GLoss Model.LTransport)
         | [Sx.A "loss"; Sx.A "hold"] -> ev (Model.GLoss Model.LHoldExpired)
         | [Sx.A "loss"; Sx.A "admin"] -> ev (Model.GLoss Model.LAdmin)
